@@ -75,6 +75,8 @@ type Session struct {
 	msgCount   int               // Number of undeleted messages.
 	logger     zerolog.Logger    // Session specific logger.
 	debug      bool              // Print network traffic to stdout.
+
+	tlsState *tls.ConnectionState // TLS state of this connection; nil while it is in the clear.
 }
 
 // NewSession creates a new POP3 session
@@ -110,11 +112,12 @@ func (s *Server) startSession(id int, conn net.Conn) {
 		Int("session", id).Logger()
 	logger.Debug().Msgf("ForceTLS: %t", s.config.ForceTLS)
 	connToClose := conn
+	var tlsState *tls.ConnectionState
 	if s.config.ForceTLS {
 		logger.Debug().Msg("Setting up TLS for ForceTLS")
 		tlsConn := tls.Server(conn, s.tlsConfig)
-		s.tlsState = new(tls.ConnectionState)
-		*s.tlsState = tlsConn.ConnectionState()
+		tlsState = new(tls.ConnectionState)
+		*tlsState = tlsConn.ConnectionState()
 		conn = tlsConn
 	}
 
@@ -130,6 +133,7 @@ func (s *Server) startSession(id int, conn net.Conn) {
 	}()
 
 	ssn := NewSession(s, id, conn, logger)
+	ssn.tlsState = tlsState
 	ssn.send(fmt.Sprintf("+OK Inbucket POP3 server ready <%v.%v@%v>", os.Getpid(),
 		time.Now().Unix(), s.config.Domain))
 
@@ -147,7 +151,7 @@ func (s *Server) startSession(id int, conn net.Conn) {
 				ssn.send("USER")
 				ssn.send("UIDL")
 				ssn.send("IMPLEMENTATION Inbucket")
-				if s.tlsConfig != nil && s.tlsState == nil && !s.config.ForceTLS {
+				if s.tlsConfig != nil && ssn.tlsState == nil && !s.config.ForceTLS {
 					ssn.send("STLS")
 				}
 				ssn.send(".")
